@@ -190,6 +190,12 @@ pub struct ServerSpec {
     /// deliveries to the output destination are explorer events too ("slow destination")
     #[serde(default)]
     pub gate_outputs: bool,
+    /// every party is a node of the real HTTP server (polytune-http-server: router, handlers,
+    /// shared state, HTTP policy client); requests leave through a middleware that parks them
+    /// with the explorer instead of a socket. Otherwise the routing rules of `api.rs` are played
+    /// by this file (`get_or_insert` / `existing`).
+    #[serde(default, skip_serializing_if = "std::ops::Not::not")]
+    pub http: bool,
 }
 
 #[derive(Clone, Debug)]
@@ -248,6 +254,11 @@ struct Hub {
     run_started: Vec<(usize, u64)>,
     /// armed "cancel from inside the output delivery": (party, comp, index of the call record)
     cancel_on_output: Vec<(usize, u64, usize)>,
+    /// http mode: the routers of the nodes
+    routers: Vec<Option<axum::Router>>,
+    /// http mode: (party, comp) for which a request that creates a state machine (schedule,
+    /// validate) was handed to the node's router since the last look at its table
+    created_hint: Vec<(usize, u64)>,
 }
 
 type SharedHub = Arc<Mutex<Hub>>;
@@ -319,42 +330,181 @@ fn existing(hub: &SharedHub, party: usize, comp: u64) -> Option<PolicyStateHandl
     hub.lock().unwrap().handles[party].get(&comp).cloned()
 }
 
+/// Parks one outgoing call of `me` with the explorer and waits for its verdict.
+async fn gate_call(hub: &SharedHub, me: usize, comp: u64, kind: &'static str, to: usize) -> Verdict {
+    let rx = {
+        let mut g = hub.lock().unwrap();
+        if kind == "msg" {
+            g.msgs += 1;
+            *g.msgs_by_comp.entry(comp).or_insert(0) += 1;
+            if g.auto_msgs {
+                return Verdict::Deliver;
+            }
+        }
+        if kind == "run" && !g.run_started.contains(&(me, comp)) {
+            g.run_started.push((me, comp));
+        }
+        let key = (kind.to_string(), me, to, comp);
+        let nth = {
+            let e = g.rpc_counts.entry(key).or_insert(0);
+            *e += 1;
+            *e - 1
+        };
+        let (tx, rx) = oneshot::channel();
+        g.next_id += 1;
+        let id = g.next_id;
+        g.pending.push(PendingRpc {
+            id,
+            kind,
+            from: me,
+            to,
+            comp,
+            nth,
+            tx: Some(tx),
+        });
+        rx
+    };
+    rx.await.unwrap_or(Verdict::FailBefore)
+}
+
 impl SimClient {
     async fn gate(&self, kind: &'static str, to: usize) -> Verdict {
-        let rx = {
-            let mut g = self.hub.lock().unwrap();
-            if kind == "msg" {
-                g.msgs += 1;
-                *g.msgs_by_comp.entry(self.comp).or_insert(0) += 1;
-                if g.auto_msgs {
-                    return Verdict::Deliver;
+        gate_call(&self.hub, self.me, self.comp, kind, to).await
+    }
+}
+
+// ---------------------------------------------------------------------------------------------
+// http mode: the transport of the real HTTP policy client
+
+/// One request through a node's real router (handlers, extractors, error mapping).
+fn hint_created(hub: &SharedHub, party: usize, comp: u64, path: &str) {
+    if path == "/schedule" || path == "/validate" {
+        hub.lock().unwrap().created_hint.push((party, comp));
+    }
+}
+
+async fn dispatch(router: axum::Router, path: &str, json: bool, body: Vec<u8>) -> (u16, Vec<u8>) {
+    use tower::ServiceExt;
+    let mut b = http::Request::builder().method("POST").uri(path);
+    if json {
+        b = b.header("content-type", "application/json");
+    }
+    let req = b.body(axum::body::Body::from(body)).expect("request");
+    let resp = match router.oneshot(req).await {
+        Ok(r) => r,
+        Err(e) => match e {},
+    };
+    let status = resp.status().as_u16();
+    let bytes = axum::body::to_bytes(resp.into_body(), usize::MAX).await.map(|b| b.to_vec()).unwrap_or_default();
+    (status, bytes)
+}
+
+fn router_of(hub: &SharedHub, p: usize) -> Option<axum::Router> {
+    hub.lock().unwrap().routers.get(p).cloned().flatten()
+}
+
+/// Innermost middleware of the HTTP client of node `me`: nothing reaches a socket.
+struct SimTransport {
+    me: usize,
+    hub: SharedHub,
+}
+
+fn host_index(url: &Url, prefix: &str) -> Option<usize> {
+    url.host_str()?.strip_prefix(prefix)?.strip_suffix(".sim")?.parse().ok()
+}
+
+fn record_output(hub: &SharedHub, me: usize, comp: u64, r: Result<String, String>) {
+    let mut g = hub.lock().unwrap();
+    let seq = g.seq;
+    g.log.push(format!("output p{me}/c{comp} {r:?}"));
+    let ord = g.log.len() as u64;
+    g.outputs.push(OutputRec { party: me, comp, result: r, seq, ord });
+}
+
+#[async_trait::async_trait]
+impl reqwest_middleware::Middleware for SimTransport {
+    async fn handle(&self, req: reqwest::Request, _ext: &mut http::Extensions, _next: reqwest_middleware::Next<'_>) -> reqwest_middleware::Result<reqwest::Response> {
+        let lost = |what: &str| reqwest_middleware::Error::Middleware(anyhow::anyhow!("{what}"));
+        let url = req.url().clone();
+        let body: Vec<u8> = req.body().and_then(|b| b.as_bytes()).map(|b| b.to_vec()).unwrap_or_default();
+        let respond = |status: u16, body: Vec<u8>| -> reqwest::Response { reqwest::Response::from(http::Response::builder().status(status).body(body).expect("response")) };
+        if let Some(p) = host_index(&url, "out") {
+            // the output destination of party p: http://out<p>.sim/<comp>
+            let comp: u64 = url.path().trim_start_matches('/').parse().unwrap_or(0);
+            let gated = self.hub.lock().unwrap().gate_outputs;
+            let mut lost_response = false;
+            if gated {
+                match gate_call(&self.hub, self.me, comp, "output", self.me).await {
+                    Verdict::FailBefore => return Err(lost("output: request lost")),
+                    Verdict::FailAfter => lost_response = true,
+                    _ => {}
                 }
             }
-            if kind == "run" && !g.run_started.contains(&(self.me, self.comp)) {
-                let k = (self.me, self.comp);
-                g.run_started.push(k);
-            }
-            let key = (kind.to_string(), self.me, to, self.comp);
-            let nth = {
-                let e = g.rpc_counts.entry(key).or_insert(0);
-                *e += 1;
-                *e - 1
+            let v: serde_json::Value = serde_json::from_slice(&body).unwrap_or(serde_json::Value::Null);
+            let r = if v["type"] == "success" {
+                match serde_json::from_value::<Literal>(v["details"].clone()) {
+                    Ok(l) => Ok(format!("{l}")),
+                    Err(e) => Err(format!("undecodable literal: {e}")),
+                }
+            } else {
+                let t = v["details"].as_str().unwrap_or("").to_string();
+                Err(if t.contains("policy evaluation has been cancelled") {
+                    "Cancelled".to_string()
+                } else if t.contains("error when requesting run from followers") {
+                    "RequestRunError".to_string()
+                } else if t.contains("error when sending consts") {
+                    "SendConstsError".to_string()
+                } else if let Some(i) = t.find("error during mpc evaluation: ") {
+                    format!("MpcError({})", t[i + 29..].lines().next().unwrap_or(""))
+                } else {
+                    t.chars().take(60).collect()
+                })
             };
-            let (tx, rx) = oneshot::channel();
-            g.next_id += 1;
-            let id = g.next_id;
-            g.pending.push(PendingRpc {
-                id,
-                kind,
-                from: self.me,
-                to,
-                comp: self.comp,
-                nth,
-                tx: Some(tx),
-            });
-            rx
+            record_output(&self.hub, p, comp, r);
+            if lost_response {
+                return Err(lost("output: response lost"));
+            }
+            return Ok(respond(200, vec![]));
+        }
+        let Some(to) = host_index(&url, "p") else {
+            return Err(lost("unknown host"));
         };
-        rx.await.unwrap_or(Verdict::FailBefore)
+        let path = url.path().to_string();
+        let segs: Vec<&str> = path.trim_matches('/').split('/').collect();
+        let (kind, comp, json): (&'static str, u64, bool) = match segs.first().copied() {
+            Some("msg") => ("msg", segs.get(1).and_then(|s| Uuid::parse_str(s).ok()).map(|u| comp_of(&u)).unwrap_or(0), false),
+            Some(k) => {
+                let v: serde_json::Value = serde_json::from_slice(&body).unwrap_or(serde_json::Value::Null);
+                let comp = v["computation_id"].as_str().and_then(|s| Uuid::parse_str(s).ok()).map(|u| comp_of(&u)).unwrap_or(0);
+                (
+                    match k {
+                        "validate" => "validate",
+                        "run" => "run",
+                        "consts" => "consts",
+                        _ => "other",
+                    },
+                    comp,
+                    true,
+                )
+            }
+            None => ("other", 0, true),
+        };
+        let verdict = gate_call(&self.hub, self.me, comp, kind, to).await;
+        if verdict == Verdict::FailBefore {
+            return Err(lost("request lost"));
+        }
+        let Some(router) = router_of(&self.hub, to) else {
+            return Err(lost("no such node"));
+        };
+        hint_created(&self.hub, to, comp, &path);
+        let (status, rbody) = dispatch(router.clone(), &path, json, body.clone()).await;
+        if verdict == Verdict::Duplicate {
+            let _ = dispatch(router, &path, json, body).await;
+        }
+        if verdict == Verdict::FailAfter {
+            return Err(lost("response lost"));
+        }
+        Ok(respond(status, rbody))
     }
 }
 
@@ -555,13 +705,42 @@ fn run_on_this_thread(spec: &ServerSpec) -> ServerRun {
         ..Default::default()
     }));
     let sems: Arc<Vec<Arc<Semaphore>>> = Arc::new((0..n).map(|p| Arc::new(Semaphore::new(spec.concurrency[p]))).collect());
+    let _guard = rt.enter();
+    // http mode: one real server node per party
+    let nodes: Arc<Vec<polytune_http_server::verif::Node>> = Arc::new(if spec.http {
+        (0..n)
+            .map(|p| polytune_http_server::verif::Node::new(Arc::new(SimTransport { me: p, hub: hub.clone() }), spec.concurrency[p], None))
+            .collect()
+    } else {
+        vec![]
+    });
+    if spec.http {
+        hub.lock().unwrap().routers = nodes.iter().map(|nd| Some(nd.router())).collect();
+    }
+    let permits_of = |p: usize| -> usize { if spec.http { nodes[p].available_permits() } else { sems[p].available_permits() } };
+    if spec.http {
+        // exact lifetimes of the state machines the nodes create (observer hook in api.rs)
+        let ids: Vec<usize> = nodes.iter().map(|nd| nd.id()).collect();
+        let hub2 = hub.clone();
+        polytune_http_server::verif::set_machine_observer(Some(std::rc::Rc::new(move |node, id, started| {
+            let Some(p) = ids.iter().position(|x| *x == node) else { return };
+            let c = comp_of(&id);
+            let mut g = hub2.lock().unwrap();
+            if started {
+                g.machines_started.push((p, c));
+            } else {
+                let seq = g.seq;
+                g.machines_stopped.push((p, c, seq));
+                g.log.push(format!("machine p{p}/c{c} stopped"));
+            }
+        })));
+    }
     // compile jobs go to the explorer
     let jobs: std::rc::Rc<std::cell::RefCell<Vec<Option<polytune_server_core::verif::thread::Job>>>> = Default::default();
     {
         let jobs = jobs.clone();
         polytune_server_core::verif::thread::set_spawner(Some(std::rc::Rc::new(move |j| jobs.borrow_mut().push(Some(j)))));
     }
-    let _guard = rt.enter();
     let mut rng: ChaCha8Rng = entropy::rng(spec.seed, 0x5e7, 0);
     let mut explicit: std::collections::VecDeque<String> = spec.explicit.iter().cloned().collect();
     let mut to_schedule: Vec<(usize, u64)> = vec![];
@@ -615,7 +794,7 @@ fn run_on_this_thread(spec: &ServerSpec) -> ServerRun {
         rt.block_on(async { tokio::time::sleep(Duration::from_millis(1)).await });
         // overlap monitor: permits taken per party
         for p in 0..n {
-            let taken = spec.concurrency[p] - sems[p].available_permits().min(spec.concurrency[p]);
+            let taken = spec.concurrency[p] - permits_of(p).min(spec.concurrency[p]);
             max_overlap[p] = max_overlap[p].max(taken);
         }
         {
@@ -691,7 +870,7 @@ fn run_on_this_thread(spec: &ServerSpec) -> ServerRun {
                     g.log.push(format!("[{events}] inject #{i} (burst, before the next event)"));
                 }
                 decisions.push(format!("inject #{i}"));
-                fire_injection(i, spec, n, &rt, &hub, &sems, &mut injections, &mut tasks, &record_call);
+                fire_injection(i, spec, n, &rt, &hub, &sems, &nodes, &mut injections, &mut tasks, &record_call);
             }
         }
         events += 1;
@@ -733,13 +912,22 @@ fn run_on_this_thread(spec: &ServerSpec) -> ServerRun {
                 let policy = policy_for(ps, p, n);
                 let idx = record_call(&hub, "schedule", p, c);
                 let (hub2, sems2) = (hub.clone(), sems.clone());
-                tasks.push(rt.spawn(async move {
-                    let h = get_or_insert(&hub2, &sems2, p, c);
-                    let r = h.schedule(policy).await;
-                    finish_call(&hub2, idx, r.is_ok(), r.err().map(|e| format!("{e:?}")).unwrap_or_default());
-                }));
+                if spec.http {
+                    tasks.push(rt.spawn(async move {
+                        let router = router_of(&hub2, p).expect("node");
+                        hint_created(&hub2, p, c, "/schedule");
+                        let (status, body) = dispatch(router, "/schedule", true, serde_json::to_vec(&policy).expect("policy")).await;
+                        finish_call(&hub2, idx, status == 200, String::from_utf8_lossy(&body).chars().take(300).collect());
+                    }));
+                } else {
+                    tasks.push(rt.spawn(async move {
+                        let h = get_or_insert(&hub2, &sems2, p, c);
+                        let r = h.schedule(policy).await;
+                        finish_call(&hub2, idx, r.is_ok(), r.err().map(|e| format!("{e:?}")).unwrap_or_default());
+                    }));
+                }
             }
-            Ev::Inject(i) => fire_injection(i, spec, n, &rt, &hub, &sems, &mut injections, &mut tasks, &record_call),
+            Ev::Inject(i) => fire_injection(i, spec, n, &rt, &hub, &sems, &nodes, &mut injections, &mut tasks, &record_call),
         }
         // burst injections: fire in the same step, before the system quiesces
         let due: Vec<usize> = injections.iter().filter(|(i, d)| !*d && spec.injections[*i].burst && spec.injections[*i].after_events == events as usize).map(|(i, _)| *i).collect();
@@ -751,7 +939,7 @@ fn run_on_this_thread(spec: &ServerSpec) -> ServerRun {
                 g.log.push(format!("[{events}] inject #{i} (burst)"));
             }
             decisions.push(format!("inject #{i}"));
-            fire_injection(i, spec, n, &rt, &hub, &sems, &mut injections, &mut tasks, &record_call);
+            fire_injection(i, spec, n, &rt, &hub, &sems, &nodes, &mut injections, &mut tasks, &record_call);
         }
     }
     // final state
@@ -776,7 +964,7 @@ fn run_on_this_thread(spec: &ServerSpec) -> ServerRun {
     if !stalled_machines.is_empty() && !event_limit {
         stalled = true;
     }
-    let permits: Vec<usize> = sems.iter().map(|s| s.available_permits()).collect();
+    let permits: Vec<usize> = (0..n).map(permits_of).collect();
     let mut h = 0u64;
     for l in &g.log {
         h = entropy::fnv(h, l.as_bytes());
@@ -805,6 +993,7 @@ fn run_on_this_thread(spec: &ServerSpec) -> ServerRun {
     };
     drop(g);
     polytune_server_core::verif::thread::set_spawner(None);
+    polytune_http_server::verif::set_machine_observer(None);
     // dropping the runtime drops all remaining tasks
     drop(_guard);
     drop(rt);
@@ -831,6 +1020,7 @@ fn fire_injection(
     rt: &tokio::runtime::Runtime,
     hub: &SharedHub,
     sems: &Arc<Vec<Arc<Semaphore>>>,
+    nodes: &Arc<Vec<polytune_http_server::verif::Node>>,
     injections: &mut [(usize, bool)],
     tasks: &mut Vec<tokio::task::JoinHandle<()>>,
     record_call: &dyn Fn(&SharedHub, &str, usize, u64) -> usize,
@@ -840,6 +1030,57 @@ fn fire_injection(
                 *hub.lock().unwrap().fired.entry(format!("inject_{}", action_name(&action))).or_insert(0) += 1;
                 let (hub2, sems2) = (hub.clone(), sems.clone());
                 let policies = spec.policies.clone();
+                if spec.http {
+                    // the same commands as requests to the node's router; cancel is what a graceful
+                    // shutdown of that server does (all its computations)
+                    let nodes = nodes.clone();
+                    let (what, path, body): (&str, String, Vec<u8>) = match &action {
+                        Action::Cancel { .. } | Action::CancelFromOutput { .. } => ("cancel", String::new(), vec![]),
+                        Action::DupSchedule { party, comp } => {
+                            let ps = policies.iter().find(|x| x.comp == *comp).unwrap();
+                            ("dup-schedule", "/schedule".into(), serde_json::to_vec(&policy_for(ps, *party, n)).unwrap())
+                        }
+                        Action::StrayRun { comp, .. } => ("stray-run", "/run".into(), serde_json::to_vec(&RunRequest { computation_id: comp_uuid(*comp) }).unwrap()),
+                        Action::StrayConsts { comp, from, .. } => {
+                            let mut consts = HashMap::new();
+                            consts.insert("Z".to_string(), Literal::from(1u8));
+                            ("stray-consts", "/consts".into(), serde_json::to_vec(&ConstsRequest { from: *from, computation_id: comp_uuid(*comp), consts }).unwrap())
+                        }
+                        Action::StrayValidate { party, comp } => {
+                            let ps = policies.iter().find(|x| x.comp == *comp).unwrap();
+                            ("stray-validate", "/validate".into(), serde_json::to_vec(&ValidateRequest::from(&policy_for(ps, *party, n))).unwrap())
+                        }
+                        Action::StrayMsg { comp, from, .. } => ("stray-msg", format!("/msg/{}/{}", comp_uuid(*comp), from), vec![1, 2, 3]),
+                    };
+                    let (party, comp) = match &action {
+                        Action::Cancel { party, comp }
+                        | Action::CancelFromOutput { party, comp }
+                        | Action::DupSchedule { party, comp }
+                        | Action::StrayRun { party, comp }
+                        | Action::StrayConsts { party, comp, .. }
+                        | Action::StrayValidate { party, comp }
+                        | Action::StrayMsg { party, comp, .. } => (*party, *comp),
+                    };
+                    let idx = record_call(hub, what, party, comp);
+                    let is_msg = what == "stray-msg";
+                    tasks.push(rt.spawn(async move {
+                        if what == "cancel" {
+                            if nodes[party].try_live_computations().is_some_and(|ids| !ids.iter().any(|id| comp_of(id) == comp)) {
+                                finish_call(&hub2, idx, false, "unknown computation".into());
+                            } else {
+                                nodes[party].cancel_all().await;
+                                finish_call(&hub2, idx, true, String::new());
+                            }
+                            return;
+                        }
+                        let router = router_of(&hub2, party).expect("node");
+                        hint_created(&hub2, party, comp, &path);
+                        let (status, body) = dispatch(router, &path, !is_msg, body).await;
+                        finish_call(&hub2, idx, status == 200, if status == 404 { "unknown computation".into() } else { String::from_utf8_lossy(&body).chars().take(300).collect() });
+                    }));
+                    let _ = sems2;
+                    return;
+                }
                 match action {
                     Action::Cancel { party, comp } => {
                         let idx = record_call(&hub, "cancel", party, comp);
